@@ -337,7 +337,7 @@ def check_property(prop, tier="quick", seed=0, only=None, verbose=False):
         property_id=prop,
         tier=tier,
         seed=seed,
-        level="proof",
+        level=spec.get("level", "proof"),
         wall_s=round(wall, 2),
         violations=len(violations),
         coverage=dict(
